@@ -38,4 +38,41 @@ theorem apply_normal (P : Spec.Position) (m : Spec.Move) (pc : Piece) (hsrc : P.
   simp only [hc, he, Bool.false_eq_true, if_false]
   rfl
 
+/-- en passant: the captured pawn stands beside the origin, on the destination's file -/
+theorem apply_ep (P : Spec.Position) (m : Spec.Move) (pc : Piece) (hsrc : P.at m.src = some pc)
+    (hc : Spec.isCastle P m = false) (he : Spec.isEnPassant P m = true) :
+    Spec.apply P m =
+      { (((P.put m.src none).put m.dst (some (landed P.side pc m.promo))).put ⟨m.dst.file, m.src.rank⟩ none) with
+        side := P.side.opp
+        wks := P.wks && !(pc == ⟨.white, .king⟩) && !touchesSq m ⟨7, 0⟩
+        wqs := P.wqs && !(pc == ⟨.white, .king⟩) && !touchesSq m ⟨0, 0⟩
+        bks := P.bks && !(pc == ⟨.black, .king⟩) && !touchesSq m ⟨7, 7⟩
+        bqs := P.bqs && !(pc == ⟨.black, .king⟩) && !touchesSq m ⟨0, 7⟩
+        ep := epAfter P.side pc m } := by
+  unfold Spec.apply
+  rw [hsrc]
+  simp only [hc, he, Bool.false_eq_true, if_false, if_true]
+  rfl
+
+/-- castling: the king moves two files, the rook jumps over it -/
+theorem apply_castle (P : Spec.Position) (m : Spec.Move) (pc : Piece) (hsrc : P.at m.src = some pc)
+    (hc : Spec.isCastle P m = true) (he : Spec.isEnPassant P m = false) :
+    Spec.apply P m =
+      { (if m.dst.file == 6 then
+            ((((P.put m.src none).put m.dst (some (landed P.side pc m.promo))).put ⟨7, m.src.rank⟩ none).put
+              ⟨5, m.src.rank⟩ (some ⟨P.side, .rook⟩))
+          else
+            ((((P.put m.src none).put m.dst (some (landed P.side pc m.promo))).put ⟨0, m.src.rank⟩ none).put
+              ⟨3, m.src.rank⟩ (some ⟨P.side, .rook⟩))) with
+        side := P.side.opp
+        wks := P.wks && !(pc == ⟨.white, .king⟩) && !touchesSq m ⟨7, 0⟩
+        wqs := P.wqs && !(pc == ⟨.white, .king⟩) && !touchesSq m ⟨0, 0⟩
+        bks := P.bks && !(pc == ⟨.black, .king⟩) && !touchesSq m ⟨7, 7⟩
+        bqs := P.bqs && !(pc == ⟨.black, .king⟩) && !touchesSq m ⟨0, 7⟩
+        ep := epAfter P.side pc m } := by
+  unfold Spec.apply
+  rw [hsrc]
+  simp only [hc, he, Bool.false_eq_true, if_false, if_true]
+  rfl
+
 end Walleye
